@@ -23,13 +23,16 @@ fn dists(p: &[f64; 4]) -> [f64; 6] { let [x, y, z, w] = *p; [-z - w, z - w, -x -
 
 /// Exact visible polygon in the (u,v)=(l1,l2) chart by brute-force vertex enumeration. Returns CCW polygon.
 fn ref_polygon(t: &[P4; 3]) -> Vec<[f64; 2]> {
-    let v: [[f64; 4]; 3] = t.map(|p| p.map(|c| c as f64));
+    // homogeneous coordinates: a common positive factor does not change the chart polygon - normalise the magnitude
+    let m = t.iter().flatten().fold(0.0f64, |m, x| m.max(x.abs() as f64)).max(1e-300);
+    let v: [[f64; 4]; 3] = t.map(|p| p.map(|c| c as f64 / m));
     let d: [[f64; 6]; 3] = [dists(&v[0]), dists(&v[1]), dists(&v[2])];
     // constraints g(u,v) = a + b u + c v >= 0
     let mut g: Vec<[f64; 3]> = vec![[1.0, -1.0, -1.0], [0.0, 1.0, 0.0], [0.0, 0.0, 1.0]];
     for i in 0..6 { g.push([-d[0][i], -(d[1][i] - d[0][i]), -(d[2][i] - d[0][i])]); }
     let scale = d.iter().flatten().fold(1.0f64, |m, x| m.max(x.abs()));
-    let eps = 1e-9 * scale;
+    // f64 evaluation of exactly representable f32 data: only rounding of the vertex solve has to be absorbed
+    let eps = 1e-12 * scale;
     let mut pts: Vec<[f64; 2]> = vec![];
     for j in 0..g.len() { for k in j + 1..g.len() {
         let det = g[j][1] * g[k][2] - g[j][2] * g[k][1];
@@ -66,7 +69,8 @@ fn check_single(t: &[P4; 3], r: &mut Report) {
         _ => {}
     }
     let v: [[f64; 4]; 3] = t.map(|p| p.map(|c| c as f64));
-    let scale = v.iter().flatten().fold(1.0f64, |m, x| m.max(x.abs()));
+    // (tolerances are relative to the magnitude of the input: homogeneous coordinates may be uniformly tiny)
+    let scale = v.iter().flatten().fold(1e-30f64, |m, x| m.max(x.abs()));
     let poly = ref_polygon(t);
     let pa = area(&poly);
     let mut sum = 0.0;
@@ -117,6 +121,25 @@ fn check_single(t: &[P4; 3], r: &mut Report) {
     r.h(&format!("planes-crossed:{}", { let d: Vec<[f64; 6]> = v.iter().map(dists).collect(); (0..6).filter(|&i| d.iter().any(|x| x[i] > 0.0) && d.iter().any(|x| x[i] < 0.0)).count() }));
 }
 
+/// The same triangle with a float colour as attribute (channels 3*lambda - 1, i.e. outside [0,1]): the outputs must carry
+/// exactly the affine image of what the (Vec3, f32) run carries - attribute interpolation may not depend on the type.
+fn check_color_attr(t: &[P4; 3], r: &mut Report) {
+    use re::math::color::{rgb, Color3f};
+    r.eval();
+    let case = || obj! {"kind" => "color", "t" => J::Arr(t.iter().flatten().map(|x| fbits(*x)).collect())};
+    let base = match clip(std::slice::from_ref(&mk(t))) { Ok(o) => o, Err(_) => return };
+    let cols: [Color3f; 3] = [rgb(2.0, -1.0, -1.0), rgb(-1.0, 2.0, -1.0), rgb(-1.0, -1.0, 2.0)];
+    let input: Tri<ClipVert<(Color3f, f32)>> = Tri(std::array::from_fn(|k| ClipVert::new(vertex(ClipVec::from(t[k]), (cols[k], SCAL[k])))));
+    let out = match caught(|| { let mut out = vec![]; view_frustum::clip(std::slice::from_ref(&input), &mut out); out }) { Ok(o) => o, Err(p) => { r.violation(format!("clip-panic|color|{t:?}"), p, case()); return; } };
+    if out.len() != base.len() { r.violation(format!("attr-type-dependence|count|{t:?}"), format!("{} outputs with a colour attribute, {} with a vector attribute", out.len(), base.len()), case()); return; }
+    for (oi, (Tri(a), Tri(b))) in out.iter().zip(&base).enumerate() { for k in 0..3 {
+        if a[k].pos != b[k].pos { r.violation(format!("attr-type-dependence|position|{t:?}"), format!("output {oi} vertex {k} differs in position between attribute types"), case()); return; }
+        let l = [b[k].attrib.0.x(), b[k].attrib.0.y(), b[k].attrib.0.z()];
+        for c in 0..3 { let want = 3.0 * l[c] as f64 - 1.0; if !((a[k].attrib.0 .0[c] as f64 - want).abs() <= 1e-5) { r.violation(format!("attr-color|{t:?}"), format!("output {oi} vertex {k}: colour channel {c} is {} but the linear attribute field has {want} there (barycentrics {l:?})", a[k].attrib.0 .0[c]), case()); return; } }
+    }}
+    if out.len() > 0 && trivial_class(t) == "clipped" { r.nontrivial(); }
+}
+
 fn check_batch(ts: &[[P4; 3]], r: &mut Report) {
     r.eval();
     let inputs: Vec<_> = ts.iter().map(mk).collect();
@@ -144,6 +167,7 @@ fn main() {
     if cfg.replay.is_some() {
         replay_main(&cfg, |c, r| {
             if c.get("kind").and_then(|j| j.as_str()) == Some("single") { check_single(&parse_tri(c.get("t").unwrap().as_arr().unwrap()), r) }
+            else if c.get("kind").and_then(|j| j.as_str()) == Some("color") { check_color_attr(&parse_tri(c.get("t").unwrap().as_arr().unwrap()), r) }
             else { let ts: Vec<[P4; 3]> = c.get("ts").unwrap().as_arr().unwrap().iter().map(|t| parse_tri(t.as_arr().unwrap())).collect(); check_batch(&ts, r) }
         });
     }
@@ -152,6 +176,21 @@ fn main() {
     let n = pts.len() as u64;
     let mut rep = par_range(&cfg, n * n * n, |i, r| check_single(&[pts[(i % n) as usize], pts[(i / n % n) as usize], pts[(i / n / n) as usize]], r));
     rep.set("lattice_points", n);
+    // colour attribute (values outside [0,1]) on every 5th triangle
+    rep.merge(par_range(&cfg, n * n * n / 5, |j, r| { let i = j * 5 + j % 5; check_color_attr(&[pts[(i % n) as usize], pts[(i / n % n) as usize], pts[(i / n / n) as usize]], r) }));
+    // magnitude families: the whole lattice (with vertices a hair outside / inside the planes) scaled by 2^-12 and 2^-20
+    let near: Vec<P4> = {
+        let e = 1.0f32 + 1.0 / 65536.0;
+        let (xy, z): (Vec<f32>, Vec<f32>) = if quick { (vec![-0.5, 0.25, e, -e], vec![-e, 0.25, 2.0 - e]) } else { (vec![-2.0, -0.5, 0.25, e, -e, 2.0 - e], vec![-e, 0.25, e, 2.0 - e]) };
+        let mut v = vec![];
+        for &x in &xy { for &y in &xy { for &zz in &z { for ww in [1.0f32, -1.0] { if ww > 0.0 || (x == 0.25 && y < 0.0) { v.push([x, y, zz, ww]); } } } } }
+        v
+    };
+    let nn = near.len() as u64;
+    rep.set("near_plane_lattice_points", nn);
+    for sc in [1.0f32, 0.000244140625, 9.5367431640625e-7] {
+        rep.merge(par_range(&cfg, nn * nn * nn, |i, r| { let t = [near[(i % nn) as usize], near[(i / nn % nn) as usize], near[(i / nn / nn) as usize]].map(|p| p.map(|c| c * sc)); check_single(&t, r); r.h("scaled-near-plane-family"); }));
+    }
     // batch pool: first triangle of each (class, output-count, outcode signature) class, 64 triangles
     let mut pool: Vec<[P4; 3]> = vec![];
     let mut seen = std::collections::HashSet::new();
@@ -187,6 +226,6 @@ fn main() {
     }
     rep.sample(0, || obj! {"triangle" => vec![vec![-2.0f32, 1.0, -0.5, 2.0], vec![1.0, 1.0, 1.0, -1.0], vec![-0.5, -2.0, 1.0, 1.0]], "attributes" => "barycentric unit vectors + scalar (3,-7,11)"});
     rep.finish(&cfg, "exploration",
-        "every ordered triple of a clip-space point lattice (x,y,z in C, w in W incl. negative w; thorough adds on-plane values) is clipped singly; per output vertex: position == affine combination given by the carried barycentric attribute (so the attribute field is intact), scalar attribute likewise, inside triangle and frustum; outputs keep the input's orientation in the barycentric chart, their areas sum to the area of the exact visible polygon (vertex enumeration over the 9 bounding lines, f64 on dyadic data) and a 24x24 chart sample grid finds every interior point in exactly one output; trivially inside => unchanged bit-for-bit, wholly outside one plane => nothing; batches: every pair and (quick: a subset of, thorough: every) triple from a 96-triangle pool (32 of them needing clipping yet vanishing entirely) clipped in one call == concatenation of single results. non-trivial = genuinely clipped triangle with positive visible area.",
+        "every ordered triple of a clip-space point lattice (x,y,z in C, w in W incl. negative w; thorough adds on-plane values) is clipped singly, and a second lattice with coordinates 2^-16 inside/outside the planes at scales 1, 2^-12 and 2^-20; every 5th triangle also with a Color3f attribute whose channels lie outside [0,1]; per output vertex: position == affine combination given by the carried barycentric attribute (so the attribute field is intact), scalar attribute likewise, inside triangle and frustum; outputs keep the input's orientation in the barycentric chart, their areas sum to the area of the exact visible polygon (vertex enumeration over the 9 bounding lines, f64 on dyadic data) and a 24x24 chart sample grid finds every interior point in exactly one output; trivially inside => unchanged bit-for-bit, wholly outside one plane => nothing; batches: every pair and (quick: a subset of, thorough: every) triple from a 96-triangle pool (32 of them needing clipping yet vanishing entirely) clipped in one call == concatenation of single results. non-trivial = genuinely clipped triangle with positive visible area.",
         &["tolerances 1e-5 relative to the coordinate scale; zero-area outputs tolerated", "lattice, not all floats"]);
 }
